@@ -106,7 +106,26 @@ def make_case(rng, with_faults):
             return None
         shape["obj"] = "as32:1sec:text"
         allsec, code = [".text"], [".text"]
-    elif r0 < 0.22:
+    elif r0 < 0.19:
+        # x32 ABI: an ELFCLASS32 container holding 64-bit code
+        src, meta = gen.gen_asm_source(rng, random_bytes_p=0.2)
+        elf = gen.assemble(src, bits="x32")
+        if elf is None:
+            return None
+        shape["obj"] = f"asx32:{len(meta)}sec"
+        allsec = [m["name"] for m in meta]
+        code = [m["name"] for m in meta if not m["data"]]
+    elif r0 < 0.21:
+        # a PE image of the same code
+        src, meta = gen.gen_asm_source(rng, sections=[".text"] + rng.sample([".mycode", ".init"], rng.randrange(0, 2)), random_bytes_p=0.2)
+        e0 = gen.assemble(src)
+        elf = gen.to_pe(e0) if e0 is not None else None
+        if elf is None:
+            return None
+        shape["obj"] = f"pe:{len(meta)}sec"
+        allsec = [m["name"] for m in meta]
+        code = [m["name"] for m in meta if not m["data"]]
+    elif r0 < 0.26:
         members = []
         meta = []
         for _ in range(rng.randrange(2, 4)):
@@ -115,10 +134,14 @@ def make_case(rng, with_faults):
             if m is not None:
                 members.append(m)
                 meta += [x for x in mmeta if x["name"] not in {y["name"] for y in meta}]
-        elf = gen.make_archive(members) if members else None
+        thin_members = None
+        if members and rng.random() < 0.4:
+            elf, thin_members = gen.make_thin_archive(members)
+        else:
+            elf = gen.make_archive(members) if members else None
         if elf is None:
             return None
-        shape["obj"] = f"archive:{len(members)}members"
+        shape["obj"] = f"{'thin-' if thin_members else ''}archive:{len(members)}members"
         allsec = [m["name"] for m in meta]
         code = [m["name"] for m in meta if not m["data"]]
     else:
@@ -137,8 +160,14 @@ def make_case(rng, with_faults):
         code = [m["name"] for m in meta if not m["data"]]
     names = gen.pick_names(rng)
     OBJ, RULE = names["bin"], names["rule"]
-    if shape["obj"].startswith("archive"):
+    if "archive" in shape["obj"]:
         OBJ = rng.choice(["lib.a", "libs/my lib.a", OBJ])
+        if shape["obj"].startswith("thin"):
+            base_dir = os.path.dirname(OBJ)
+            for rel, mb in thin_members.items():
+                files[(base_dir + "/" if base_dir else "") + rel] = mb
+    if shape["obj"].startswith("pe:") and rng.random() < 0.5:
+        OBJ = rng.choice(["app.exe", "BOOTX64.EFI", OBJ])
     files[OBJ] = elf
     data = [s for s in allsec if s not in code]
     # ---- the sections list, in every shape the property names
